@@ -302,11 +302,13 @@ def generate(ctx):
         yield "strategies", c
     # Rotation objects with mixed improper flags: exact inputs (signed-permutation rotations scaled to unit, integer vectors)
     perm = [[1, 0, 0, 0], [0, 1, 0, 0], [0, 0, 1, 0], [0, 0, 0, 1], [-1, 0, 0, 0], [0, 0, -1, 0]]
-    for r in range(6 if ctx.tier == "quick" else 60):
+    for r in range(9 if ctx.tier == "quick" else 60):
         sa, sb = SHAPES[rng.integers(len(SHAPES))], SHAPES[rng.integers(len(SHAPES))]
         other = ["v", "r", "q"][r % 3]
         if r % 6 == 0:
             sb = sa
+        if r < 6:                           # always: operands with two axes longer than 1 (a wrong flatten order shows)
+            sa, sb = [((2,), (2, 3)), ((3, 2), (2, 3)), ((2, 3), (2,)), ((2, 3), (3, 2)), ((2, 2), (2, 3)), ((1, 3), (3, 2))][r]
         na, nb = int(np.prod(sa)), int(np.prod(sb))
         # every second case: rotations in general position (results are not integers although `other` holds integers)
         c = {"other": other, "sa": list(sa), "sb": list(sb),
